@@ -210,6 +210,12 @@ fn cases(thorough: bool) -> Vec<Case> {
         v.push(Case { family: "two files", items: vec![e1.clone(), e2.clone(), d.clone()], split: Some(1) });
         v.push(Case { family: "two files", items: vec![e1.clone(), d.clone(), e2.clone(), e3.clone()], split: Some(3) });
     }
+    // 3d. must fail also across files: the same name defined in both files, at the same and at different positions
+    for kind in kinds {
+        let d = make(kind, "A", 0, 0);
+        v.push(Case { family: "must fail: name defined twice within a kind", items: vec![d.clone(), d.clone()], split: Some(1) });
+        v.push(Case { family: "must fail: name defined twice within a kind", items: vec![d.clone(), make(kind, "A", 1, 2), d.clone()], split: Some(2) });
+    }
     // 4. failures: duplicate definition within a kind, orphan extension, extension of another kind only
     for kind in kinds {
         v.push(Case { family: "must fail: name defined twice within a kind", items: vec![make(kind, "A", 0, 0), make(kind, "A", 1, 2), make(kind, "A", 0, 0)], split: None });
@@ -267,17 +273,19 @@ fn main() {
         }
         evaluations += 1;
         *per_family.entry(c.family.to_string()).or_default() += 1;
-        let source = match c.split {
+        let files: Option<(String, String)> = c.split.map(|k| {
+            (format!("{}{}", if k > 1 { "\n\n\n\n\n" } else { "" }, c.items[..k].iter().map(render).collect::<Vec<_>>().join("\n")), c.items[k..].iter().map(render).collect::<Vec<_>>().join("\n"))
+        });
+        let source = match &files {
             None => c.items.iter().map(render).collect::<Vec<_>>().join("\n"),
-            Some(k) => format!("# file 0\n\n\n\n\n\n{}\n# file 1\n{}", c.items[..k].iter().map(render).collect::<Vec<_>>().join("\n"), c.items[k..].iter().map(render).collect::<Vec<_>>().join("\n")),
+            Some((f0, f1)) => format!("--- file 0 ---\n{f0}\n--- file 1 ---\n{f1}"),
         };
         let expected = reference_merge(&c.items);
         let r = std::panic::catch_unwind(|| {
-            let doc = match c.split {
+            let doc = match &files {
                 None => parse_type_system_document(&source).map_err(|e| format!("generator: the source does not parse: {e:?}"))?,
-                Some(_) => {
+                Some((f0, f1)) => {
                     // as crates/cli does: every file is parsed with its own file index, then the documents are concatenated
-                    let (f0, f1) = source.split_once("# file 1\n").unwrap();
                     nitrogql_ast::set_current_file_of_pos(0);
                     let d0 = parse_type_system_document(f0).map_err(|e| format!("generator: the source does not parse: {e:?}"))?;
                     nitrogql_ast::set_current_file_of_pos(1);
